@@ -178,6 +178,8 @@ def ev(n, env, funcs=None):
         idx = ev(n.slice, env, funcs)
         if isinstance(base, Table):
             return base.read(idx)
+        if isinstance(base, Obj) and '__getitem__' in base.methods:
+            return base.call('__getitem__', idx)
         if isinstance(base, PyStub) and hasattr(base, '__getitem__'):
             return base[idx]
         if isinstance(base, dict) and not isinstance(base, Table):
@@ -293,6 +295,8 @@ def ev(n, env, funcs=None):
             return (min if fname == 'min' else max)(args)
         if fname in ('abs', 'fabs') and len(args) == 1:
             return abs(args[0])
+        if fname == 'len' and len(args) == 1 and isinstance(args[0], Obj) and '__len__' in args[0].methods:
+            return args[0].call('__len__')
         if fname == 'len' and len(args) == 1 and (isinstance(args[0], (list, tuple, dict, str, set)) or (isinstance(args[0], PyStub) and hasattr(args[0], '__len__'))):
             return len(args[0])
         if fname == 'range' and isinstance(f, ast.Name) and all(isinstance(a, int) for a in args):
@@ -320,14 +324,15 @@ def ev(n, env, funcs=None):
             return str(args[0])
         if fname in ('int', 'float', 'bool') and len(args) == 1:
             return {'int': int, 'float': float, 'bool': bool}[fname](args[0])
-        if funcs and fname in funcs:
-            return funcs[fname](*args)
+        kw_ = {k.arg: ev(k.value, env, funcs) for k in n.keywords if k.arg}
+        if funcs and fname in funcs and fname not in ('__globals__', '__name__', '__resolve__'):
+            return funcs[fname](*args, **kw_)
         if funcs and '__resolve__' in funcs:
             target = funcs['__resolve__'](n, fname)
             if target is not None:
-                return target(*args)
+                return target(*args, **kw_)
         if fname in env and callable(env[fname]):
-            return env[fname](*args)
+            return env[fname](*args, **kw_)
         raise Unsupported('call %s' % ast.unparse(n))
     if isinstance(n, ast.Compare):
         l = ev(n.left, env, funcs)
@@ -384,6 +389,13 @@ def ev(n, env, funcs=None):
     if isinstance(n, ast.BinOp):
         a, b = ev(n.left, env, funcs), ev(n.right, env, funcs)
         t = type(n.op)
+        if isinstance(a, Obj) or isinstance(b, Obj):
+            dn = {ast.Add: 'add', ast.Sub: 'sub', ast.Mult: 'mul', ast.Mod: 'mod', ast.Div: 'truediv', ast.FloorDiv: 'floordiv', ast.Pow: 'pow'}.get(t)
+            if dn and isinstance(a, Obj) and '__%s__' % dn in a.methods:
+                return a.call('__%s__' % dn, b)
+            if dn and isinstance(b, Obj) and '__r%s__' % dn in b.methods:
+                return b.call('__r%s__' % dn, a)
+            raise Unsupported('operator on records: %s' % ast.unparse(n))
         if t is ast.Add:
             return a + b
         if t is ast.Sub:
@@ -587,6 +599,9 @@ def _bind(t, v, env, funcs=None):
             if not isinstance(k, int) or not -len(base) <= k < len(base):
                 raise IndexError('store index %r out of range in %s' % (k, ast.unparse(t)))
             base[k] = v
+            return
+        if isinstance(base, Obj) and '__setitem__' in base.methods:
+            base.call('__setitem__', ev(t.slice, env, funcs), v)
             return
         if isinstance(base, dict) and not isinstance(base, Table):
             base[ev(t.slice, env, funcs)] = v
